@@ -1,10 +1,25 @@
 #!/bin/bash
-# run the repository's stable baseline with the hook guard OFF, on a scratch copy (the suite rewrites tracked files)
-set -e
+# run the repository's stable baseline with the hook guard OFF, on a scratch copy (the suite rewrites tracked files),
+# and compare with /root/.vp/BASELINE.json: every stable_pass test must still pass
 T=$(mktemp -d /var/tmp/aegean_baseline.XXXXXX)
 trap 'rm -rf "$T"' EXIT
 rsync -a --exclude .git /repo/ "$T/repo/"
 cd "$T/repo"
-unset AEGEAN_VERIF
-/venv/bin/python -m pytest -ra -q -p no:cacheprovider --timeout=900 --continue-on-collection-errors --junitxml="$T/junit.xml" "$@" | tail -40
+unset AEGEAN_VERIF AEGEAN_VERIF_SCHEDULE AEGEAN_VERIF_IDFILE
+/venv/bin/python -m pytest -ra -q -p no:cacheprovider --timeout=900 --continue-on-collection-errors --junitxml="$T/junit.xml" "$@" 2>&1 | tail -5
 cp "$T/junit.xml" /verif/.baseline_junit.xml 2>/dev/null || true
+/venv/bin/python - "$T/junit.xml" <<'PY'
+import json, sys, xml.etree.ElementTree as ET
+base = json.load(open('/root/.vp/BASELINE.json'))
+res = {}
+for tc in ET.parse(sys.argv[1]).getroot().iter('testcase'):
+    name = '%s::%s' % (tc.get('classname'), tc.get('name'))
+    bad = any(ch.tag in ('failure', 'error') for ch in tc)
+    skipped = any(ch.tag == 'skipped' for ch in tc)
+    res[name] = 'fail' if bad else ('skip' if skipped else 'pass')
+missing = [t for t in base['stable_pass'] if res.get(t) != 'pass']
+print('BASELINE stable_pass: %d/%d passed with the guard off; total %d tests, %d passed' % (len(base['stable_pass']) - len(missing), len(base['stable_pass']), len(res), sum(v == 'pass' for v in res.values())))
+for t in missing:
+    print('  NOT PASSING:', t, res.get(t))
+sys.exit(1 if missing else 0)
+PY
